@@ -142,6 +142,28 @@ CLAIMED["C12"] = (
 NOT_YET = {}
 
 
+CORPUS_TECH = (" + regression corpus (corpus/<id>.jsonl: minimised inputs on which a seeded change or a repaired defect violated the property, "
+               "evaluated by the same oracles on every run)")
+EXTRA_TECH = {
+    "C01": " + model-free oracle for exceptions raised by Stream._emit itself (no node, no user function raised)",
+    "C02": " + emissions placed an exact number of event-loop iterations after a completion and directed map_async saturation races",
+    "C03": " + source histories (from_periodic / from_textfile / filenames / from_iterable under start/stop with a pending consumer): a source reads on only when its emission's awaitables are done",
+    "C04": " + scatter()/gather() segments on an in-process Dask cluster (no result carrying a reference reaches the sink after its counter hit zero)",
+    "C06": " + statement programs (groupby / in-place assignment / select / filter in any order) run by one interpreter on the streaming objects and on pandas; falsy and non-string column labels",
+    "C10": " + model-free metadata oracle on asynchronous pipelines (buffer/delay/rate_limit/map_async/timed_window/partition with timeout) against the same pipeline with the timing removed",
+    "C11": " + defect-mirroring model of EWMean on NaN cells and a pandas NaN specification (recorded finding), both compared with the real code",
+    "C12": " + an uninterrupted run in which a consumer rejects one delivery while the producer carries on",
+    "C13": " + rejecting consumers and falsy payloads",
+    "C14": " + None/falsy payloads, late-attached consumers, detach/re-attach of the node from its upstream",
+    "C15": " + asynchronous nodes rewired while they hold data (random and directed), every form of emit_on",
+    "C16": " + failing awaitable consumers must reach the emitter; sink_to_textfile with closed / failing files",
+    "C17": " + raising consumers, stop/start, a second source over the same directory",
+    "C18": " + tailing from_end on a file with a real read position; poll-before-downstream-done",
+    "C19": " + Kafka histories on the in-memory broker observed for background loops / threads",
+    "C20": " + model of failing tasks (Model/DaskFail.lean, Props/C20Fail.lean: equivalence where no stateful node follows a failure, recorded accumulate divergence with witness) compared with both real pipelines; same-named closures, two-branch fan-out, late attachment",
+}
+
+
 def build():
     props = [json.loads(l) for l in open(os.path.join(ROOT, "properties.jsonl"))]
     checks = []
@@ -150,6 +172,7 @@ def build():
         pid = p["id"]
         if pid in CLAIMED:
             ref, tech, text, note = CLAIMED[pid]
+            tech = tech + EXTRA_TECH.get(pid, "") + CORPUS_TECH
             checks.append({
                 "property_id": pid,
                 "quick_cmd": "./check %s --tier quick" % pid,
